@@ -7,7 +7,7 @@ from cgsim import gen as G, ref
 from cgsim.core import fp, Skip, state_digest
 
 ID = "C17"
-QUICK = dict(worlds=16, runs=800, seconds=25)
+QUICK = dict(worlds=16, runs=800, seconds=15)
 THOROUGH = dict(worlds=256, runs=3000, seconds=30)
 RULE = ("seeded blackbox-free lint-clean circuits (trees, reconvergent cones, shared logic between outputs, 20% with "
         "gates of more than two inputs); distinct = canonical net + flag; non-trivial = at least two supergates or one "
